@@ -177,3 +177,34 @@ pub fn read_fai<R: io::BufRead>(r: R, items: &mut Vec<String>) -> io::Result<()>
     }
     Ok(())
 }
+
+// ------------------------------------------------------------- CRAI
+
+use noodles_cram::{self as cram, crai};
+
+/// `cram::fs::index` takes a path; the file lives in a per-process scratch directory for the
+/// duration of the call.
+pub fn crai_from_cram(cram_bytes: &[u8]) -> io::Result<crai::Index> {
+    let dir = std::env::temp_dir().join(format!("nsim-crai-{}", std::process::id()));
+    std::fs::create_dir_all(&dir)?;
+    let path = dir.join("x.cram");
+    std::fs::write(&path, cram_bytes)?;
+    let r = cram::fs::index(&path);
+    let _ = std::fs::remove_file(&path);
+    let _ = std::fs::remove_dir(&dir);
+    r
+}
+
+pub fn write_crai<W: Write>(w: W, idx: &crai::Index) -> io::Result<()> {
+    let mut w = crai::io::Writer::new(w);
+    w.write_index(idx)?;
+    w.finish().map(|_| ())
+}
+
+pub fn read_crai<R: Read>(r: R, items: &mut Vec<String>) -> io::Result<()> {
+    let idx = crai::io::Reader::new(r).read_index()?;
+    for rec in &idx {
+        items.push(format!("R|{rec:?}"));
+    }
+    Ok(())
+}
